@@ -36,3 +36,18 @@ package produce
 //@   implements protocol.BrokerMessage
 //@   notimplements protocol.GroupMessage
 //@   notimplements protocol.TransactionalMessage
+
+// Routing (C12): a produce request goes to the broker that the cluster metadata names as LEADER of every partition it
+// writes to: when Broker succeeds, every (topic, partition) of the request is known, has a registered leader, and that
+// leader is the returned broker.  Precondition (cluster layout): brokers are registered under their own, non-negative id.
+//@ func (*Request).Broker
+//@   option noframe
+//@   modifies heap
+//@   requires r != nil
+//@   requires forall k int :: haskey(cluster.Brokers, k) ==> cluster.Brokers[k].ID == k && k >= 0
+//@   ensures result1 == nil ==> (forall a, b :: 0 <= a && a < len(r.Topics) && 0 <= b && b < len(r.Topics[a].Partitions) ==> haskey(cluster.Topics, r.Topics[a].Topic) && haskey(cluster.Topics[r.Topics[a].Topic].Partitions, r.Topics[a].Partitions[b].Partition) && cluster.Topics[r.Topics[a].Topic].Partitions[r.Topics[a].Partitions[b].Partition].Leader == result0.ID && haskey(cluster.Brokers, result0.ID))
+//@   loop 0 invariant -1 <= rangeindex#0 && rangeindex#0 < len(r.Topics)
+//@   loop 0 invariant forall a, b :: 0 <= a && a <= rangeindex#0 && 0 <= b && b < len(r.Topics[a].Partitions) ==> haskey(cluster.Topics, r.Topics[a].Topic) && haskey(cluster.Topics[r.Topics[a].Topic].Partitions, r.Topics[a].Partitions[b].Partition) && cluster.Topics[r.Topics[a].Topic].Partitions[r.Topics[a].Partitions[b].Partition].Leader == broker.ID && haskey(cluster.Brokers, broker.ID)
+//@   loop 1 invariant 0 <= i && i < len(r.Topics) && -1 <= rangeindex#1 && rangeindex#1 < len(r.Topics[i].Partitions) && haskey(cluster.Topics, r.Topics[i].Topic)
+//@   loop 1 invariant forall a, b :: 0 <= a && a < i && 0 <= b && b < len(r.Topics[a].Partitions) ==> haskey(cluster.Topics, r.Topics[a].Topic) && haskey(cluster.Topics[r.Topics[a].Topic].Partitions, r.Topics[a].Partitions[b].Partition) && cluster.Topics[r.Topics[a].Topic].Partitions[r.Topics[a].Partitions[b].Partition].Leader == broker.ID && haskey(cluster.Brokers, broker.ID)
+//@   loop 1 invariant forall b :: 0 <= b && b <= rangeindex#1 ==> haskey(cluster.Topics[r.Topics[i].Topic].Partitions, r.Topics[i].Partitions[b].Partition) && cluster.Topics[r.Topics[i].Topic].Partitions[r.Topics[i].Partitions[b].Partition].Leader == broker.ID && haskey(cluster.Brokers, broker.ID)
